@@ -6,7 +6,9 @@ import (
 	"fmt"
 	"os"
 	"path/filepath"
+	"regexp"
 	"strconv"
+	"strings"
 	"time"
 )
 
@@ -18,6 +20,7 @@ type Finding struct {
 	Status  string   `json:"status"` // open | fixed
 	Commit  string   `json:"commit,omitempty"`
 	KF      string   `json:"kf,omitempty"` // name of the deviation switch in the TLA+ model
+	Family  string   `json:"family,omitempty"` // exec | fp | ...
 	What    string   `json:"what"`
 	Example any      `json:"example,omitempty"`
 }
@@ -47,16 +50,39 @@ func (f Findings) Open(prop, sig string) *Finding {
 			if s == prop+"/"+sig {
 				return x
 			}
+			// an entry may be a regular expression over "<property>/<signature>"
+			if strings.ContainsAny(s, "*+()[]|") {
+				if re, err := regexp.Compile("^(?:" + s + ")$"); err == nil && re.MatchString(prop+"/"+sig) {
+					return x
+				}
+			}
 		}
 	}
 	return nil
+}
+
+// OpenKFsOf lists the deviation switches of one family's model that belong to open findings.
+func (f Findings) OpenKFsOf(family string) []string {
+	var out []string
+	seen := map[string]bool{}
+	for _, x := range f.Findings {
+		if x.Status == "open" && x.KF != "" && x.Family == family {
+			for _, k := range strings.Split(x.KF, ",") {
+				if !seen[k] {
+					seen[k] = true
+					out = append(out, k)
+				}
+			}
+		}
+	}
+	return out
 }
 
 // OpenKFs lists the model deviation switches of the findings that are still open.
 func (f Findings) OpenKFs() []string {
 	var out []string
 	for _, x := range f.Findings {
-		if x.Status == "open" && x.KF != "" {
+		if x.Status == "open" && x.KF != "" && (x.Family == "" || x.Family == "exec") {
 			out = append(out, x.KF)
 		}
 	}
@@ -137,4 +163,9 @@ func (r *Reporter) Note(format string, a ...any) {
 	s := fmt.Sprintf(format, a...)
 	r.Notes = append(r.Notes, s)
 	fmt.Println(s)
+}
+
+type Viol struct {
+	Prop string `json:"prop"`
+	Sig  string `json:"sig"`
 }
